@@ -1012,7 +1012,12 @@ impl Reader {
             let mut missing_frags = this.missing_frags_for(writer_guid, sn);
             let first_missing = missing_frags.next();
             if let Some(first) = first_missing {
-              let missing_frags_set = iter::once(first).chain(missing_frags).collect(); // "undo" the .next() above
+              // "undo" the .next() above. A NackFrag can carry at most 256 fragment numbers
+              // starting from the first one, so do not collect more than that: a sample may
+              // have millions of (missing) fragments.
+              let missing_frags_set = iter::once(first)
+                .chain(missing_frags.take_while(|f| u32::from(*f) - u32::from(first) < 256))
+                .collect();
               let nf = NackFrag {
                 reader_id,
                 writer_id: writer_proxy.remote_writer_guid.entity_id,
@@ -1469,6 +1474,24 @@ impl Reader {
       .matched_writers
       .get(&writer_guid)
       .map(|wp| wp.received_heartbeat_count)
+  }
+}
+
+// Verification hook: read-only views of a writer proxy and of the fragment assemblers.
+#[cfg(rustdds_verif)]
+impl Reader {
+  pub(crate) fn verif_writer_proxy_digest(&self, writer: GUID) -> Option<(i64, Vec<i64>, i32)> {
+    self
+      .matched_writers
+      .get(&writer)
+      .map(RtpsWriterProxy::verif_digest)
+  }
+  pub(crate) fn verif_assemblers_digest(&self) -> Vec<(GUID, Vec<(i64, usize, Vec<bool>)>)> {
+    self
+      .fragment_assemblers
+      .iter()
+      .map(|(g, fa)| (*g, fa.verif_digest()))
+      .collect()
   }
 }
 
